@@ -1929,7 +1929,100 @@ def run_C12(ctx):
             res.judge_failures.append(dict(info, what="plain batch summary %s differs from the pairs alone %s" % (sorted(set(trip)), sorted(set(want))), **{"class": "c12-plain"}))
         if si < 2:
             res.add_sample({"rules_files": nr, "documents": nd, "batch_status": {k: v["status"] for k, v in batch.items()}})
+    c12_test_cases(ctx, res, rng)
     return res
+
+
+def c12_test_cases(ctx, res, rng):
+    """`cfn-guard test`: a test file with n cases vs each case in a file of its own (plain, json, yaml, junit;
+    rules that refer to other rules by name and share variables, so that anything kept between cases shows)"""
+    import re as _re
+    import yaml as _yaml
+    n = 500 if ctx.thorough() else 50
+    jobs, scen = [], []
+    for i in range(n):
+        g = gen.G(ctx.seed * 4100023 + i, core=True)
+        docs = [g.doc()] + [gen.G(ctx.seed * 59 + i * 11 + k).doc() for k in range(rng.choice([1, 2, 3]))]
+        rules = g.rules_file(docs[0], depth=2, cfn=False)
+        names = sorted(set(_re.findall(r"^rule (\w+)", rules, _re.M)))
+        if not names or "r.guard" in rules:
+            continue
+        dep = names[0]
+        rules += ("let zv = %s\nrule zdep when %s {\nthis is_struct\n}\nrule zref {\n%s\n}\nrule znot {\nnot %s\n}\n"
+                  "rule zvar {\n%%zv exists\n}\n") % (rng.choice(list(docs[0].keys()) or ["a"]) if docs[0] else "a", dep, dep, dep)
+        allnames = names + ["zdep", "zref", "znot", "zvar"]
+        specs = [{"name": "case%d" % k, "input": d, "expectations": {"rules": {nm: rng.choice(["PASS", "FAIL", "SKIP"]) for nm in allnames if rng.random() < 0.8}}}
+                 for k, d in enumerate(docs)]
+        sc = {"rules": rules, "specs": specs, "jobs": {}}
+        for fmt in ("plain", "json", "yaml", "junit"):
+            oargs = [] if fmt == "plain" else ["-o", fmt]
+            sc["jobs"][(fmt, "all")] = len(jobs)
+            jobs.append({"argv": ["test", "-r", "{DIR}/x.guard", "-t", "{DIR}/t.json"] + oargs, "files": {"x.guard": rules, "t.json": json.dumps(specs)}})
+            if fmt in ("plain", "json"):
+                for k, sp in enumerate(specs):
+                    sc["jobs"][(fmt, k)] = len(jobs)
+                    jobs.append({"argv": ["test", "-r", "{DIR}/x.guard", "-t", "{DIR}/t.json"] + oargs, "files": {"x.guard": rules, "t.json": json.dumps([sp])}})
+        # the same cases in the reverse order
+        sc["jobs"][("json", "rev")] = len(jobs)
+        jobs.append({"argv": ["test", "-r", "{DIR}/x.guard", "-t", "{DIR}/t.json", "-o", "json"], "files": {"x.guard": rules, "t.json": json.dumps(specs[::-1])}})
+        scen.append(sc)
+    outs = vlib.run_cli_many(jobs)
+
+    def cases_of(o):
+        tj = json.loads(o["stdout"])
+        if isinstance(tj, list):
+            tj = tj[0]
+        return [{"name": tc["name"],
+                 "passed": sorted((base_rule_name(p["name"]), p["evaluated"]) for p in tc["passed_rules"]),
+                 "failed": sorted((base_rule_name(f["name"]), f["expected"], tuple(f["evaluated"])) for f in tc["failed_rules"]),
+                 "skipped": sorted(base_rule_name(x["name"]) for x in tc["skipped_rules"])} for tc in tj["test_cases"]]
+
+    for sc in scen:
+        res.evaluations += 1
+        info = {"rules": sc["rules"], "specs": sc["specs"]}
+        o_all = outs[sc["jobs"][("json", "all")]]
+        singles = [outs[sc["jobs"][("json", k)]] for k in range(len(sc["specs"]))]
+        if o_all["code"] not in (0, 7) or any(o["code"] not in (0, 7) for o in singles):
+            res.stats["c12-test-error"] += 1
+            if (o_all["code"] in (0, 7)) != all(o["code"] in (0, 7) for o in singles):
+                res.judge_failures.append(dict(info, what="test file with all cases exits %s, the cases alone exit %s" % (o_all["code"], [o["code"] for o in singles]), **{"class": "c12-test-error"}))
+            continue
+        try:
+            call = cases_of(o_all)
+            cone = [cases_of(o)[0] for o in singles]
+            crev = cases_of(outs[sc["jobs"][("json", "rev")]])
+        except Exception as e:
+            res.judge_failures.append(dict(info, what="test -o json output unreadable: %s" % e, **{"class": "c12-test-json"}))
+            continue
+        res.nontrivial.add(("test", vlib.sha(sc["rules"] + json.dumps(sc["specs"]))))
+        res.stats["c12-test-cases:%d" % len(cone)] += 1
+        if call != cone:
+            k = next((j for j in range(min(len(call), len(cone))) if call[j] != cone[j]), None)
+            res.judge_failures.append(dict(info, what="test case %s evaluated in a file with %d cases gives %s, alone %s" % (
+                k, len(cone), call[k] if k is not None else len(call), cone[k] if k is not None else len(cone)), **{"class": "c12-test-case"}))
+        if sorted(crev, key=lambda c: c["name"]) != sorted(call, key=lambda c: c["name"]):
+            res.judge_failures.append(dict(info, what="the order of the test cases in the file changes a case's result", **{"class": "c12-test-order"}))
+        want_exit = 7 if any(c["failed"] for c in cone) else 0
+        for fmt in ("plain", "json", "yaml", "junit"):
+            code = outs[sc["jobs"][(fmt, "all")]]["code"]
+            if code != want_exit:
+                res.judge_failures.append(dict(info, what="test (%s) on all cases exits %s; the cases alone imply %s" % (fmt, code, want_exit), **{"class": "c12-test-exit-" + fmt}))
+        pcodes = [outs[sc["jobs"][("plain", k)]]["code"] for k in range(len(sc["specs"]))]
+        if pcodes != [o["code"] for o in singles]:
+            res.judge_failures.append(dict(info, what="plain and json exit codes of single cases differ: %s vs %s" % (pcodes, [o["code"] for o in singles]), **{"class": "c12-test-exit-single"}))
+        # yaml carries the same per-case results as json
+        try:
+            ty = _yaml.safe_load(outs[sc["jobs"][("yaml", "all")]]["stdout"].replace("{DIR}", "DIR"))
+            if isinstance(ty, list):
+                ty = ty[0]
+            cy = [{"name": tc["name"],
+                   "passed": sorted((base_rule_name(p["name"]), p["evaluated"]) for p in tc["passed_rules"]),
+                   "failed": sorted((base_rule_name(f["name"]), f["expected"], tuple(f["evaluated"])) for f in tc["failed_rules"]),
+                   "skipped": sorted(base_rule_name(x["name"]) for x in tc["skipped_rules"])} for tc in ty["test_cases"]]
+            if cy != cone:
+                res.judge_failures.append(dict(info, what="test -o yaml on all cases differs from the cases alone", **{"class": "c12-test-yaml"}))
+        except Exception as e:
+            res.stats["c12-test-yaml-unreadable"] += 1
 
 
 register("C12", ["Guard.Properties.C12"], run_C12, needs_cli=True)
